@@ -6,7 +6,13 @@ CONSTANTS
   Shapes = {"flat", "nested"}
   RSet <- MCRSet
   DSet <- MCDSet
+  HW = 4
+  InitOpts = {}
+  BurstOpts <- MCBurstOpts
+  LoopOpts = {}
+  LBurstOpts = {}
+  PairOpts = {}
   K = 4
   MaxBodies = 3
-INVARIANTS TypeOK SummaryIsMomentary ReturnedLoopsWellFormed Declarative ReportedLaws NeverExceeded SerialIsOne OpenWhereUnstated Monotone
+INVARIANTS TypeOK SummaryIsMomentary ReturnedLoopsWellFormed Declarative ReportedLaws NeverExceeded SerialIsOne OpenWhereUnstated Monotone BurstIsIteration ConcatLaw SizeLaws
 CHECK_DEADLOCK FALSE
